@@ -69,8 +69,8 @@ PROPS = {
     "C09": {
         "theorems": thms(P + "C09", ["C09_flag_set", "C09_ack_only_frame", "C09_flag_consumed", "C09_nothing_pending", "C09_no_entry"]),
         "ties": PIPE_TIES,
-        "engines": ["pipeseq", "pipectl"],
-        "assumptions": ["RX-window timing is runtime behaviour; the scheduler delay is set to 0 in the harness"],
+        "engines": ["pipeseq", "pipectl", "rxwindow"],
+        "assumptions": ["RX-window timing is runtime behaviour: engines pipeseq/pipectl run with a zero window and schedule the buffer read explicitly; engine rxwindow runs a real 400 ms window free-running and checks that the buffer is read when the window closes"],
         "trusted_base": ["frameoutputbuffer.go transcribed as fobTake / fobSet* in Model/Pipeline.lean"],
     },
     "C10": {
